@@ -77,6 +77,9 @@ type Opts struct {
 	KeepDir    bool
 	NoCluster  bool
 	NodeName   string
+	// ContractURL: use the HTTP contract provider against this contract service (refreshing every ContractMs ms)
+	ContractURL string
+	ContractMs  int
 }
 
 // New starts a broker (never listens on a socket).
@@ -110,6 +113,9 @@ func New(o Opts) (*Broker, error) {
 			name = fmt.Sprintf("00:00:00:00:%02x:%02x", (port>>8)&0xff, port&0xff)
 		}
 		cfg.Cluster = &config.ClusterConfig{ListenAddr: fmt.Sprintf("127.0.0.1:%d", port+10000), AdvertiseAddr: fmt.Sprintf("127.0.0.1:%d", port+10000), Directory: dir + "/cluster", NodeName: name}
+	}
+	if o.ContractURL != "" {
+		cfg.Contract = &cfgp.ProviderConfig{Provider: "http", Config: map[string]interface{}{"url": o.ContractURL, "interval": float64(o.ContractMs)}}
 	}
 	switch o.Storage {
 	case "ssd":
